@@ -17,8 +17,10 @@ import (
 	"errors"
 	"fmt"
 	"io"
+	"math"
 	"math/rand"
 	"net/http"
+	"net/url"
 	"os"
 	"path/filepath"
 	"regexp"
@@ -96,6 +98,13 @@ type c11Op struct {
 	Gets    []int      `json:"gets,omitempty"`
 	Len     int        `json:"len,omitempty"`
 	Revokes []c11Status `json:"revokes,omitempty"` // mix: entries to revoke concurrently (list + idx)
+	// wire: StatusList2021Entry.Validate / strconv.Atoi / strconv.Itoa differential (fields of the entry as Go strings;
+	// UrlOK = verdict of url.ParseRequestURI on Raw, computed by the generator; N = number printed with Itoa)
+	ID    string `json:"id,omitempty"`
+	Type  string `json:"type,omitempty"`
+	Raw   string `json:"raw,omitempty"`
+	UrlOK bool   `json:"urlok,omitempty"`
+	N     int64  `json:"n,omitempty"`
 	// SignFail: the injected Sign fails during this operation (key store outage after ResolveKey succeeded)
 	SignFail bool `json:"signfail,omitempty"`
 	// Down: the status list endpoints of these nodes cannot be reached during this operation
@@ -466,7 +475,8 @@ func (w *c11World) entryLine(node int, issuer string, purpose string) string {
 	}
 	w.mu.Lock()
 	defer w.mu.Unlock()
-	ok := e.Type == StatusList2021EntryType && e.StatusPurpose == StatusPurposeRevocation && e.ID == e.StatusListCredential+"#"+e.StatusListIndex
+	ok := e.Type == StatusList2021EntryType && e.StatusPurpose == StatusPurposeRevocation && e.ID == e.StatusListCredential+"#"+e.StatusListIndex &&
+		e.Validate() == nil // the entry handed out passes the validator every verifier runs (theorem issued_entry_validates)
 	return fmt.Sprintf("%s %s wf=%v", w.name(e.StatusListCredential), e.StatusListIndex, ok)
 }
 
@@ -787,6 +797,18 @@ func (w *c11World) exec(op c11Op) (line string) {
 		w.dlLog = nil
 		err = w.nodes[op.Node].cs.Verify(*cred)
 		return fmt.Sprintf("verify %s dl=[%s]", c11ErrClass(err), strings.Join(w.dlLog, ","))
+	case "wire":
+		e := StatusList2021Entry{ID: op.ID, Type: op.Type, StatusPurpose: op.Purpose, StatusListIndex: op.Idx, StatusListCredential: op.Raw}
+		at := "err"
+		if v, err := strconv.Atoi(op.Idx); err == nil {
+			at = strconv.Itoa(v)
+		}
+		it := strconv.Itoa(int(op.N))
+		rt := "DIFF"
+		if back, err := strconv.Atoi(it); err == nil && int64(back) == op.N {
+			rt = "ok"
+		}
+		return fmt.Sprintf("wire validate=%s atoi=%s itoa=%s rt=%s intsize=%d", c11ValidateClass(e.Validate()), at, it, rt, strconv.IntSize)
 	case "bits":
 		n := op.Len
 		bs := bitstring(make([]byte, n))
@@ -897,7 +919,7 @@ func (g *c11Gen) someIdx() string {
 	case 2:
 		return strconv.Itoa(maxBitstringIndex + 1)
 	case 3:
-		return "abc"
+		return []string{"abc", "", "9223372036854775808", "1_0", "-", "+0", " 1"}[g.rng.Intn(7)]
 	case 4:
 		return strconv.Itoa(maxBitstringIndex - g.rng.Intn(4))
 	case 5:
@@ -912,17 +934,30 @@ func (g *c11Gen) someEntry(node int) (c11URL, string) {
 	switch {
 	case len(g.revoked) > 0 && r.Intn(4) == 0:
 		e := g.revoked[r.Intn(len(g.revoked))]
-		return e.list, strconv.Itoa(e.idx)
+		return e.list, g.alias(strconv.Itoa(e.idx))
 	case len(g.entries) > 0 && r.Intn(5) != 0:
 		e := g.entries[r.Intn(len(g.entries))]
 		if r.Intn(8) == 0 {
 			return e.list, g.someIdx()
 		}
-		return e.list, strconv.Itoa(e.idx)
+		return e.list, g.alias(strconv.Itoa(e.idx))
 	case r.Intn(4) == 0:
 		return c11URL{Node: -1, Raw: g.pick(c11Foreign)}, g.someIdx()
 	}
 	return g.someList(node), g.someIdx()
+}
+
+// alias: now and then another spelling strconv.Atoi reads as the same position ("+7", "07", "007")
+func (g *c11Gen) alias(s string) string {
+	switch g.rng.Intn(16) {
+	case 0:
+		return "+" + s
+	case 1:
+		return "0" + s
+	case 2:
+		return "00" + s
+	}
+	return s
 }
 
 func (g *c11Gen) tickSecs() int {
@@ -1212,6 +1247,104 @@ func (g *c11Gen) next() c11Op {
 	}
 }
 
+// c11ValidateClass names the check of StatusList2021Entry.Validate that refused the entry
+func c11ValidateClass(err error) string {
+	switch {
+	case err == nil:
+		return "ok"
+	case strings.Contains(err.Error(), "is the same as"):
+		return "err:id-is-list"
+	case strings.Contains(err.Error(), "type must be"):
+		return "err:type"
+	case strings.Contains(err.Error(), "statusPurpose is required"):
+		return "err:purpose"
+	case strings.Contains(err.Error(), "invalid StatusList2021Entry.statusListIndex"):
+		return "err:index"
+	case strings.HasPrefix(err.Error(), "parse StatusList2021Entry.statusListCredential URL"):
+		return "err:url"
+	}
+	return "err:other:" + err.Error()
+}
+
+var c11IdxStrings = []string{"0", "7", "07", "007", "+7", "-7", "-0", "+0", "", "-", "+", "+-7", "--7", "7-", " 7", "7 ", "\t7", "7\n", "1_0", "_7", "0x10", "0b1", "0o7",
+	"1e3", "1.0", "7,0", "\u0667", "\uff17", "\u00b2", "seven", "131071", "131072", "2147483647", "2147483648", "4294967296", "999999999999999999", "1000000000000000000",
+	"9223372036854775807", "9223372036854775808", "+9223372036854775807", "-9223372036854775808", "-9223372036854775809", "18446744073709551615", "18446744073709551616",
+	"00000000000000000000000007", "+00000000000000000000000007", "-00000000000000000000000007", "99999999999999999999999999", "0000000000000000000", "000000000000000000",
+	"7\x00", "\x007", "7a", "a7", "٧7", "7#", "#7", "%37"}
+var c11WireURLs = []string{"https://n0.example/statuslist/did:web:example.com:iam:alice/1", "https://lists.example/a", "/statuslist/x/1", "", "*", "lists.example/a", "did:web:x",
+	"https://lists.example/a b", "https://lists.example/\x7f", "http://[::1/x", "https://lists.example/%zz", "x", "//lists.example/a", "https://lists.example/a#frag", ":", "1:a"}
+
+// c11WireOp: one Validate/Atoi/Itoa differential case; k < 0: random
+func c11WireOp(r *rand.Rand, k int) c11Op {
+	op := c11Op{Op: "wire", ID: "https://lists.example/a#7", Type: StatusList2021EntryType, Purpose: StatusPurposeRevocation, Idx: "7", Raw: "https://lists.example/a"}
+	if k >= 0 && k < len(c11IdxStrings) {
+		op.Idx = c11IdxStrings[k]
+	} else {
+		switch r.Intn(4) {
+		case 0:
+			op.Idx = c11IdxStrings[r.Intn(len(c11IdxStrings))]
+		case 1: // random decimal of random length (around the fast-path limit of 18 digits and the int64 limit of 19)
+			n := 1 + r.Intn(22)
+			b := make([]byte, 0, n+1)
+			if r.Intn(3) == 0 {
+				b = append(b, "+-"[r.Intn(2)])
+			}
+			for i := 0; i < n; i++ {
+				b = append(b, byte('0'+r.Intn(10)))
+			}
+			op.Idx = string(b)
+		case 2: // one foreign byte somewhere in a decimal
+			b := []byte(strconv.Itoa(r.Intn(200000)))
+			b[r.Intn(len(b))] = " _-+.:/ax"[r.Intn(9)]
+			op.Idx = string(b)
+		default:
+			op.Idx = strconv.Itoa(r.Intn(maxBitstringIndex + 2))
+		}
+		mut := r.Intn(12)
+		if r.Intn(3) == 0 {
+			op.Raw = c11WireURLs[r.Intn(len(c11WireURLs))]
+			if r.Intn(3) != 0 { // the URL check is the last one: keep the other fields valid so that it decides
+				mut = 11
+				if r.Intn(2) == 0 {
+					op.Idx = strconv.Itoa(r.Intn(maxBitstringIndex + 1))
+				}
+			}
+		}
+		switch mut {
+		case 0:
+			op.ID = op.Raw
+		case 1:
+			op.ID = ""
+		case 2:
+			op.Type = []string{"", "statuslist2021entry", "StatusList2021", "StatusList2021Entry ", "BitstringStatusListEntry"}[r.Intn(5)]
+		case 3:
+			op.Purpose = []string{"", "suspension", " ", "Revocation"}[r.Intn(4)]
+		case 4: // several checks fail at once: the first one in source order names the error
+			op.ID, op.Type, op.Purpose, op.Idx = op.Raw, "x", "", "-1"
+		case 5:
+			op.Type, op.Purpose = "x", ""
+		case 6:
+			op.Purpose, op.Idx = "", "abc"
+		case 7:
+			op.Idx, op.Raw = "-1", ""
+			op.ID = "y"
+		}
+	}
+	_, err := url.ParseRequestURI(op.Raw)
+	op.UrlOK = err == nil
+	switch r.Intn(6) {
+	case 0:
+		op.N = []int64{0, -1, 1, 9, 10, 99, 100, 131071, 131072, math.MaxInt64, math.MinInt64, math.MaxInt32, math.MinInt32, -10, -9}[r.Intn(15)]
+	case 1:
+		op.N = r.Int63() - r.Int63()
+	case 2:
+		op.N = int64(math.Pow10(r.Intn(19))) - int64(r.Intn(2))
+	default:
+		op.N = int64(r.Intn(maxBitstringIndex + 2))
+	}
+	return op
+}
+
 func c11BitsOp(r *rand.Rand) c11Op {
 	n := []int{0, 1, 2, 3, 16, defaultBitstringLengthInBytes, defaultBitstringLengthInBytes + 1, 2 * defaultBitstringLengthInBytes, 4 * defaultBitstringLengthInBytes}[r.Intn(9)]
 	var sets []c11BitOp
@@ -1326,6 +1459,13 @@ func TestVerifC11(t *testing.T) {
 	}
 	for i := 0; i < 40; i++ {
 		run(c11BitsOp(rng))
+	}
+	// wire layer: every hostile index string on an otherwise valid entry, then random entries
+	for k := range c11IdxStrings {
+		run(c11WireOp(rng, k))
+	}
+	for i := 0; i < 3*nScen/2; i++ {
+		run(c11WireOp(rng, -1))
 	}
 	g := &c11Gen{rng: rng}
 	for sc := 0; sc < nScen; sc++ {
